@@ -234,6 +234,14 @@ class ModelMixin3:
                         outs.append((self.exc('ValueError', s2, node, 'value is not in list'), s2))
                     return outs
                 return self.child_index(Ref('elem', le.parent), args[0], st, node)
+            if le.kind == 'lit' and args and isinstance(args[0], Ref) and all(isinstance(x, Ref) for x in le.items) \
+                    and not any(self.prog.classes[s_.get(x.sym).cls].find('__eq__') for s_ in (st,) for x in le.items
+                                if x.kind == 'obj' and hasattr(s_.get(x.sym), 'cls')):
+                # exact list of distinct objects compared by identity: the position is known
+                for k, x in enumerate(le.items):
+                    if x == args[0]:
+                        return [(Ref('idx', st.new(IdxE('const', const=k, descr=str(k)))), st)]
+                return [(self.exc('ValueError', st, node, 'value is not in list'), st)]
             s2 = st.copy()
             return [(Ref('idx', st.new(IdxE('foreign', why=f'position in {self.describe(recv, st)}'))), st),
                     (self.exc('ValueError', s2, node, 'value is not in list'), s2)]
@@ -279,8 +287,11 @@ class ModelMixin3:
             return [(recv, st)]
         if name == 'values':
             items = tuple(v for _, v in d.items)
-            return [(Ref('list', st.new(ListE('lit' if d.exact else 'accum', len(items) if d.exact else 0,
-                                               len(items) if d.exact else None, items=items))), st)]
+            if d.exact:
+                return [(Ref('list', st.new(ListE('lit', len(items), len(items), items=items))), st)]
+            # the values of a mapping filled from a sequence: entries whose keys are equal have collapsed into one, so this
+            # is not "every element of the sequence, in order"
+            return [(Ref('list', st.new(ListE('accum', 0, None, items=items, ordered=False, stages=('dict.values',)))), st)]
         if name == 'get':
             k = args[0] if args else NoneV()
             default = args[1] if len(args) > 1 else kwargs.get('default', NoneV())
@@ -306,6 +317,20 @@ class ModelMixin3:
             if not d.exact and not d.items:
                 outs.append((Unknown('dict value'), st.copy()))
             outs.append((default, st.copy()))
+            return outs
+        if name == 'setdefault' and args and attrib_of is None:
+            k = args[0]
+            val = args[1] if len(args) > 1 else NoneV()
+            olds = [b for a, b in d.items if self._may_equal(a, k)]
+            if d.exact and self._is_concrete(k) and all(self._is_concrete(a) for a, _ in d.items):
+                hit = [b for a, b in d.items if a == k]
+                if hit:
+                    return [(hit[0], st)]
+                return [(val, s) for _, s in self.model_setitem(recv, k, val, st, node)]
+            outs = []
+            for b in dict.fromkeys(olds):
+                outs.append((b, st.copy()))           # the key was there already: the mapping keeps the earlier value
+            outs.extend((val, s) for _, s in self.model_setitem(recv, k, val, st, node))
             return outs
         if name in ('pop', 'setdefault', 'update', 'clear'):
             st.put(recv.sym, replace(d, exact=False))
@@ -427,6 +452,46 @@ class ModelMixin3:
                 # running positions built from an index and a sequence of increments: the index typestate cannot follow
                 # this (which increment belongs to which insertion); no verdict rather than a guess
                 raise AnalysisError('child positions computed with itertools.accumulate(..., initial=<index>) are outside the index abstraction')
+        if name == 'itertools.groupby' and args:
+            # runs of consecutive elements with an equal key: decided only for an exact sequence whose keys are concrete values
+            src = args[0]
+            seq = src.items if isinstance(src, TupleV) else (st.get(src.sym).items if isinstance(src, Ref) and src.kind == 'list' and st.get(src.sym).kind == 'lit' else None)
+            keyf = args[1] if len(args) > 1 else kwargs.get('key')
+            def summary(s):
+                # runs of a sequence known only by its element templates: some number of (key, non-empty run) pairs
+                tmpl = st_items(src, s)
+                g = s.new(ListE('accum', 1, None, items=tmpl, stages=('itertools.groupby run',)))
+                return [(Ref('list', s.new(ListE('accum', 0, None, items=(TupleV((Unknown('groupby key'), Ref('list', g))),), stages=('itertools.groupby',)))), s)]
+
+            def st_items(v, s):
+                if isinstance(v, TupleV):
+                    return v.items
+                if isinstance(v, Ref) and v.kind == 'list':
+                    return s.get(v.sym).items
+                raise AnalysisError('itertools.groupby over something that is not a sequence')
+            if seq is None:
+                return summary(st)
+            groups, cur = [], st
+            snapshot = st.copy()
+            for x in seq:
+                if keyf is None or isinstance(keyf, NoneV):
+                    k = x
+                else:
+                    outs = [(v, s) for v, s in self.call_value(keyf, [x], {}, cur, node)]
+                    if len(outs) != 1 or isinstance(outs[0][0], _Raise()):
+                        raise AnalysisError('itertools.groupby: the key function forks or raises')
+                    k, cur = outs[0]
+                if not self._is_concrete(k):
+                    return summary(snapshot)
+                if groups and groups[-1][0] == k:
+                    groups[-1][1].append(x)
+                else:
+                    groups.append((k, [x]))
+            items = []
+            for k, xs in groups:
+                g = cur.new(ListE('lit', len(xs), len(xs), items=tuple(xs)))
+                items.append(TupleV((k, Ref('list', g))))
+            return [(Ref('list', cur.new(ListE('lit', len(items), len(items), items=tuple(items), stages=('itertools.groupby',)))), cur)]
         if name == 'itertools.repeat' and len(args) == 1 and not kwargs:
             return [(Ref('list', st.new(ListE('repeat', 2, None, items=(args[0],), stages=('itertools.repeat',)))), st)]
         if name == 'itertools.count' and len(args) <= 2 and not kwargs:
